@@ -89,7 +89,8 @@ def _blob(ctx, R, T):
     R.check(ok, "BLOB", q + "|n0inv", "n0inv = 2^32 - (n mod 2^32)^-1 mod 2^32", "n0inv is %s; expected 2^32 - modinv(n mod 2^32, 2^32)" % show(n0inv)[:200], loc)
 
     def is_le256(x, inner):
-        alts = set(x[1]) if x[0] == "phi" else {x}
+        from ..terms import alts_of
+        alts = alts_of(x)
         good = ("call", ".to_bytes", (inner, ("c", 256), ("c", "little")), ())
         return good in alts
     R.check(is_le256(mod, N), "BLOB", q + "|modulus", "modulus = n as 256 little-endian bytes", "the modulus field is %s; expected n.to_bytes(256, 'little')" % show(mod)[:200], loc)
@@ -196,7 +197,8 @@ def _sign_pythonrsa(ctx, R, T):
         if isinstance(st, ast.Assign) and len(st.targets) == 1 and isinstance(st.targets[0], ast.Subscript):
             tg = st.targets[0]
             base = src(tg.value)
-            k = tg.slice.value if isinstance(tg.slice, ast.Constant) else None
+            okk, k = ctx.fold.try_eval(tg.slice, mod, {})       # a literal or a module-level constant
+            k = k if okk else None
             if k == method and base.endswith("HASH_METHODS"):
                 reg_hash = st.value
             if k == method and base.endswith("HASH_ASN1"):
